@@ -31,6 +31,18 @@ def _reassign_triggers(ctx, R, g=None):
     g = g or R.argument
     var = g.params[1] if len(g.params) > 1 else None
     trig = set()
+    # the token tests that hold on every path to the call (nested `if`, a flag, or an early return on the negated test)
+    from sa.util import fact_atom
+    cfg = ctx.cfg(g)
+    for c in walk_no_nested(g.node):
+        if isinstance(c, ast.Call) and call_name(c) == "reassign_arguments":
+            nodes = cfg.node_containing(c)
+            for fc in cfg.facts():
+                e, pol = fact_atom(fc)
+                if pol is True and isinstance(e, ast.Compare):
+                    toks = _tokens_of_test(ctx, g, e, var)
+                    if toks and nodes and all(cfg.guarded(nd, lambda x, fc=fc: x is fc) for nd in nodes):
+                        trig |= toks
     for c in walk_no_nested(g.node):
         if isinstance(c, ast.Call) and call_name(c) == "reassign_arguments":
             p = getattr(c, "_parent", None)
